@@ -76,7 +76,7 @@ def check_dis_asm(e, seq, a, base, cfgkey, case):
         except Exception as x:
             raise Violation(crash_sig(x, 'disassembler'), 'disassemble raised %r' % x, case)
         op = ins.operation
-        key = (op, a if _addr_dependent(op) else None, tuple(ins.bytes))
+        key = (op, a if (_addr_dependent(op) or a >= 0xFFF0) else None, tuple(ins.bytes), bool(ins.variant), cfgkey[3])
         if key in e.memo:
             return None
         e.memo.add(key)
